@@ -18,6 +18,8 @@ inductive CState where
   | ready
   | closed
   | bad (e : Nat)
+  /-- a DNS name given as local address (xcm.local_addr) is still being resolved; `remoteToo`: so is the remote name -/
+  | resolvingLocal (remoteToo : Bool)
   deriving DecidableEq, Repr
 
 /-- the four byte counters (`XCM_TP_NUM_BYTESTREAM_CNTS`) -/
@@ -58,19 +60,32 @@ def tryFinishConnect (ans : List EstAns) : CState × List EstAns :=
   | .fail e :: t => (.bad e, t)
   | .ok :: t => (.ready, t)
 
+/-- `begin_connect`: tconnect_connect, then try_finish_connect -/
+def beginConnect (t : List EstAns) : CState × List EstAns :=
+  match t with
+  | [] => tryFinishConnect []          -- tconnect_connect defaults to success
+  | .fail e :: t' => (.bad e, t')
+  | _ :: t' => tryFinishConnect t'
+
+/-- the remote name's query: its result, then (on success) begin_connect -/
+def finishRemote (ans : List EstAns) : CState × List EstAns :=
+  match ans with
+  | [] => (.resolving, [])
+  | .again :: t => (.resolving, t)
+  | .fail e :: t => (.bad e, t)
+  | .ok :: t => beginConnect t
+
 def tryEstablish (st : CState) (ans : List EstAns) : CState × List EstAns :=
   match st with
-  | .resolving =>
+  | .resolving => finishRemote ans
+  | .resolvingLocal remoteToo =>
+    -- the local name's query first; a failure of either query fails the connection; when it is done the remote
+    -- query's result is looked at in the same call
     match ans with
-    | [] => (.resolving, [])
-    | .again :: t => (.resolving, t)
+    | [] => (.resolvingLocal remoteToo, [])
+    | .again :: t => (.resolvingLocal remoteToo, t)
     | .fail e :: t => (.bad e, t)
-    | .ok :: t =>
-      -- begin_connect: tconnect_connect, then try_finish_connect
-      match t with
-      | [] => tryFinishConnect []          -- tconnect_connect defaults to success
-      | .fail e :: t' => (.bad e, t')
-      | _ :: t' => tryFinishConnect t'
+    | .ok :: t => if remoteToo then finishRemote t else beginConnect t
   | .connecting => tryFinishConnect ans
   | s => (s, ans)
 
@@ -99,6 +114,7 @@ def send (s : St) (buf : Bytes) (est : List EstAns) (k : KSend) : St × Res :=
   | .bad e => ({ s with state := st }, .err e)
   | .closed => ({ s with state := st }, .err EPIPE)
   | .resolving => ({ s with state := st }, .err EAGAIN)
+  | .resolvingLocal _ => ({ s with state := st }, .err EAGAIN)
   | .connecting => ({ s with state := st }, .err EAGAIN)
   | .ready =>
     match k with
@@ -119,6 +135,7 @@ def receive (s : St) (cap : Nat) (est : List EstAns) (k : KRecv) : St × Res :=
   | .bad e => ({ s with state := st }, .err e)
   | .closed => ({ s with state := st }, .n 0 [])
   | .resolving => ({ s with state := st }, .err EAGAIN)
+  | .resolvingLocal _ => ({ s with state := st }, .err EAGAIN)
   | .connecting => ({ s with state := st }, .err EAGAIN)
   | .ready =>
     match k with
@@ -142,6 +159,7 @@ def finish (s : St) (est : List EstAns) : St × Res :=
   | .bad e => ({ s with state := st }, .err e)
   | .closed => ({ s with state := st }, .err EPIPE)
   | .resolving => ({ s with state := st }, .err EAGAIN)
+  | .resolvingLocal _ => ({ s with state := st }, .err EAGAIN)
   | .connecting => ({ s with state := st }, .err EAGAIN)
   | .ready => ({ s with state := st }, .n 0 [])
 
@@ -149,6 +167,7 @@ def finish (s : St) (est : List EstAns) : St × Res :=
 def connUpdate (st : CState) (cond : Nat) (queryCompleted : Bool) : Bool × Option Nat :=
   match st with
   | .resolving => (queryCompleted, none)
+  | .resolvingLocal _ => (queryCompleted, none)      -- `queryCompleted`: every pending query has completed
   | .connecting => (false, none)
   | .ready =>
     (false, some ((if cond &&& Generated.XCM_SO_SENDABLE ≠ 0 then 4 else 0) |||
